@@ -4,6 +4,7 @@ CONSTANTS
  MaxItems = 2
  MaxTicket = 8
  MaxStale = 0
+ MaxExh = 0
  AllowRemove = FALSE
  Dev = {"waker_kept_if_some"}
 INVARIANTS NoLostWakeup
